@@ -363,7 +363,8 @@ impl FromStr for ChemicalCompositionMap<'_> {
     type Err = FormulaParserError;
 
     fn from_str(s: &str) -> Result<Self, Self::Err> {
-        s.parse()
+        let mut parser = crate::formula::FormulaParser::default();
+        parser.parse_formula_with_table_generic(s, &crate::PERIODIC_TABLE)
     }
 }
 
